@@ -220,6 +220,9 @@ func init() {
 			}
 			// Sorted, so that the same set always has the same encoding.
 			slices.Sort(members)
+			for i, member := range members {
+				members[i] = internal.EncodePersistedString(member)
+			}
 			b, err := json.Marshal(members)
 			return b, true, err
 		},
@@ -227,6 +230,13 @@ func init() {
 			var members []string
 			if err := json.Unmarshal(b, &members); err != nil {
 				return nil, err
+			}
+			for i, member := range members {
+				decoded, err := internal.DecodePersistedString(member)
+				if err != nil {
+					return nil, err
+				}
+				members[i] = decoded
 			}
 			return NewSet(members), nil
 		},
